@@ -308,7 +308,7 @@ class Ctx(object):
         envpath = None
         cmd = ['cbmc', gb, '--function', ob.func, '--unwind', str(ob.unwind),
                '--unwinding-assertions', '--drop-unused-functions',
-               '--no-malloc-may-fail', '--json-ui', '--trace', '--slice-formula',
+               '--no-malloc-may-fail', '--json-ui', '--trace',
                '--verbosity', '8']
         cmd += BASE_CHECKS
         if ob.mem:
@@ -415,10 +415,16 @@ class Ctx(object):
                 continue
             bad.append((pid, desc, pr))
         if not r.unwind_ok:
-            r.status = 'inconclusive'
-            r.failed_props = [(a, b) for a, b, _ in bad]
+            # either the bound is too small or the loop does not terminate:
+            # the replay decides (a run that hangs confirms non-termination)
+            r.status = 'unwind-fail'
+            r.failed_props = [(a, b) for a, b, _ in bad if 'unwind' in a]
             r.detail = 'unwinding assertion failed at bound %d: %s' % (
                 ob.unwind, ', '.join(a for a, _b, _ in bad if 'unwind' in a)[:500])
+            for a, _b, pr in bad:
+                if 'unwind' in a and 'trace' in pr:
+                    r.inputs = self.trace_inputs(ob, pr['trace'])
+                    break
             return
         if bad:
             r.status = 'violated'
@@ -448,16 +454,15 @@ class Ctx(object):
                 continue
             lhs = s.get('lhs', '')
             v = s.get('value', {})
-            if 'data' not in v or not re.fullmatch(r'v\w*', lhs):
+            if 'data' not in v:
                 continue
-            n = parse_c_int(v['data'], v)
-            if lhs.endswith('_i'):
-                idx[lhs[:-2]] = n
-            elif lhs.endswith('_e'):
-                a = lhs[:-2]
-                vals['%s[%d]' % (a, idx.get(a, 0))] = n
-            else:
-                vals[lhs] = n
+            m = re.fullmatch(r'(v\w*)\[(\d+)l?\]', lhs)
+            if m:
+                vals['%s[%s]' % (m.group(1), m.group(2))] = parse_c_int(v['data'], v)
+                continue
+            if not re.fullmatch(r'v\w*', lhs) or lhs.endswith('_i') or lhs.endswith('_e'):
+                continue
+            vals[lhs] = parse_c_int(v['data'], v)
         return vals
 
     # ------------------------------------------------------------------
@@ -517,7 +522,7 @@ class Ctx(object):
         env['ASAN_OPTIONS'] = 'detect_leaks=0:abort_on_error=0'
         try:
             q = subprocess.run([exe, path], stdout=subprocess.PIPE, stderr=subprocess.STDOUT,
-                               timeout=60, text=True, errors='replace', env=env)
+                               timeout=20, text=True, errors='replace', env=env)
             return q.stdout, q.returncode
         except subprocess.TimeoutExpired:
             return 'REPLAY-TIMEOUT', 124
@@ -639,16 +644,25 @@ def conclude(ctx, obs, level_note, assumptions, stubs, rule, pre_info, extra_cov
     known_lines = []
     problems = []
     replayed = 0
-    todo = [ob for ob in obs if ob.result.status == 'violated']
+    todo = [ob for ob in obs if ob.result.status in ('violated', 'unwind-fail')]
     with concurrent.futures.ThreadPoolExecutor(max_workers=NCPU) as ex:
         list(ex.map(lambda ob: ctx.replay(ob, ob.result), todo))
     for ob in obs:
         r = ob.result
         only = ob.kfmode and ob.kfmode[0] == 'ONLY'
         whole = ob.kfwhole if ob.kfwhole in ctx.known else None
+        if r.status == 'unwind-fail':
+            replayed += 1
+            if 'REPLAY-TIMEOUT' in (r.replay_out or ''):
+                # the real code does not terminate on the solver's input
+                r.status = 'violated'
+                r.replay = 'confirmed'
+                r.failed_props = [(a, 'non-termination: ' + b) for a, b in r.failed_props]
+            else:
+                r.status = 'inconclusive'
         if r.status == 'violated':
             rp = r.replay
-            replayed += 1
+            replayed += 0 if r.failed_props and r.failed_props[0][1].startswith('non-termination') else 1
             if whole:
                 if rp == 'confirmed':
                     known_lines.append('KNOWN-FINDING: property=%s %s [key=%s]' % (
